@@ -1061,6 +1061,62 @@ func c04Limits(o *out, r *rng, thorough bool) {
 				srv.stop()
 			}
 		}
+		// the transfer buffer size option, at its edges: 0 (documented way to switch the pooled buffers off), 1, odd,
+		// large - whatever the size, a transfer delivers the file's bytes and the process lives
+		for _, bs := range []string{"0", "1", "4097", "3M"} {
+			srvb, err := startServer(root, "", "--buffer-size="+bs)
+			if err != nil {
+				o.emit("c04 bufsize "+bs, "proc=0 alive=0 served=open-failed note=server-did-not-start", "", "bufsize"+bs)
+				continue
+			}
+			served := "open-failed"
+			func() {
+				c, err := net.DialTimeout("tcp4", srvb.addr(), time.Second)
+				if err != nil {
+					return
+				}
+				defer c.Close()
+				c.SetDeadline(time.Now().Add(20 * time.Second))
+				c.Write(creq{op: opOpenFile, path: "/plain.bin"}.bytes())
+				hdr := make([]byte, 16)
+				if _, err := io.ReadFull(c, hdr); err != nil || binary.BigEndian.Uint64(hdr[:8]) != 300000 {
+					return
+				}
+				served = "short"
+				c.Write(creq{op: opReadFile, a: 70000, b: 1000}.bytes())
+				buf := make([]byte, 4+70000)
+				if _, err := io.ReadFull(c, buf); err != nil {
+					return
+				}
+				c.Write(creq{op: opReadFileCritical, a: 5000, b: 299000 - 5000}.bytes())
+				buf2 := make([]byte, 5000)
+				if _, err := io.ReadFull(c, buf2); err != nil {
+					return
+				}
+				served = "ok"
+				for i := 0; i < 70000; i++ {
+					if buf[4+i] != patByte(5, int64(1000+i)) {
+						served = "WRONG-BYTES"
+						break
+					}
+				}
+				for i := range buf2 {
+					if buf2[i] != patByte(5, int64(294000+i)) {
+						served = "WRONG-BYTES"
+					}
+				}
+			}()
+			proc, alive := 0, 0
+			if statRootProbe(srvb.addr(), 5*time.Second) {
+				alive = 1
+			}
+			if srvb.alive() {
+				proc = 1
+			}
+			srvb.stop()
+			o.count("buffer-size:" + bs)
+			o.emit("c04 bufsize "+bs, fmt.Sprintf("proc=%d alive=%d served=%s", proc, alive, served), "", "bufsize"+bs)
+		}
 		// memory: the length field of READ_FILE must not drive the server's memory use
 		srv, err := startServer(root, "")
 		if err != nil {
